@@ -71,6 +71,7 @@ struct sim_stats {
     uint64_t max_runnable;
     uint64_t focus_preemptions; // preemptions landing inside a focus range with >=2 runnable
     uint64_t quiesce_start_step;
+    uint64_t auto_quiesced;     // 1 if the fault-phase step cap forced the quiescence phase
 };
 
 typedef void (*sim_fail_fn)(const char* cls, const char* msg);
@@ -98,6 +99,8 @@ uint64_t sim_focus_hits(int id);   // preemptions inside range id
 void sim_point_user(void);
 // describe blocked threads into buf (for failure dumps)
 size_t sim_describe(char* buf, size_t cap);
+// write the last `last_n` schedule points (flight recorder) to fd
+void sim_dump_trace(int fd, int last_n);
 // number of threads currently runnable / total alive
 int sim_count_runnable(void);
 
